@@ -1457,6 +1457,63 @@ Proof.
       subst r'. exact Hr'.
 Qed.
 
+(** the same with an individual limit per block ([0] = no limit): enough is "some block has no
+    limit, or the limits add up to the number of attributes expired by the last block's time" *)
+Definition blocks2 (l : list (Z * Z)) : list op := map (fun p => OBlock (fst p) (snd p)) l.
+
+Lemma absent_blocks2_persists : forall cfg l s r,
+  inv_core s -> absent r s -> absent r (run_from cfg s (blocks2 l)).
+Proof.
+  intros cfg l. induction l as [|[dt limit] t IH]; intros s r Hc Ha; cbn [blocks2 map run_from fold_left fst snd]; [auto|].
+  fold (blocks2 t). fold (run_from cfg (fst (step cfg s (OBlock dt limit))) (blocks2 t)).
+  destruct (block_step_facts cfg s dt limit Hc) as [I1 I2].
+  apply IH; [exact I1|]. intros r' Hr'. apply Ha. apply I2. exact Hr'.
+Qed.
+
+Lemma expired_gone_eventually2 : forall cfg l s r e,
+  inv_core s -> Forall (fun p => 0 <= fst p /\ 0 <= snd p) l ->
+  In r (s_recs s) -> a_exp r = Some e ->
+  match l with p :: _ => e < s_now s + fst p | [] => False end ->
+  (Exists (fun p => snd p = 0) l \/
+   ecount (s_now s + fold_right (fun p acc => fst p + acc) 0 l) s <= fold_right (fun p acc => snd p + acc) 0 l) ->
+  absent r (run_from cfg s (blocks2 l)).
+Proof.
+  intros cfg l. induction l as [|[dt limit] t IH]; intros s r e Hc Hl Hr He Hfirst Hcount; [contradiction|].
+  inversion Hl as [|? ? [Hdt Hlim] Ht]; subst. cbn [fold_right fst snd] in *.
+  cbn [blocks2 map run_from fold_left fst snd]. fold (blocks2 t).
+  fold (run_from cfg (fst (step cfg s (OBlock dt limit))) (blocks2 t)).
+  set (T := s_now s + (dt + fold_right (fun p acc => fst p + acc) 0 t)) in *.
+  assert (Hsum : 0 <= fold_right (fun p acc => fst p + acc) 0 t).
+  { clear - Ht. induction Ht as [|x l' [Hx _] Hl IHl]; cbn [fold_right]; lia. }
+  unfold step. cbn [exec]. destruct (dt <? 0) eqn:D; [lia|]. cbn [fst].
+  set (s0 := set_now s (s_now s + dt)).
+  assert (Hc0 : inv_core s0) by (apply inv_core_set_now; exact Hc).
+  assert (HT : s_now s0 <= T) by (subst T s0; cbn [set_now s_now]; lia).
+  destruct (sweep_facts_at cfg limit s0 T Hc0 HT) as [I1 [I2 [[_ [I3 _]] [_ I5]]]].
+  set (s1 := sweep cfg limit s0) in *.
+  assert (Hex0 : expired (s_now s0) r = true) by (unfold expired; rewrite He; subst s0; cbn [set_now s_now]; lia).
+  assert (HexT : expired T r = true) by (unfold expired; rewrite He; subst T; lia).
+  destruct I5 as [I5|[Hne I5]].
+  - apply absent_blocks2_persists; [exact I1|]. exact (I5 r Hr Hex0).
+  - assert (Hcount1 : Exists (fun p => snd p = 0) t \/ ecount T s1 <= fold_right (fun p acc => snd p + acc) 0 t).
+    { destruct Hcount as [Hex|Hcount].
+      - inversion Hex as [? ? H0|? ? H0]; subst; [cbn [snd] in H0; contradiction|left; exact H0].
+      - right. change (ecount T s0) with (ecount T s) in I5. lia. }
+    destruct (in_dec attr_eq_dec r (s_recs s1)) as [Hin|Hnin].
+    + destruct t as [|[dt' limit'] t'].
+      * exfalso. pose proof (ecount_pos T s1 r Hin HexT). destruct Hcount1 as [Hex|Hc1]; [inversion Hex|].
+        cbn [fold_right] in Hc1. lia.
+      * apply (IH s1 r e I1 Ht Hin He).
+        -- inversion Ht as [|? ? [Hd' _] _]; subst. cbn [fst] in *. rewrite I3. subst s0. cbn [set_now s_now]. lia.
+        -- rewrite I3. subst s0. cbn [set_now s_now]. subst T. cbn [fold_right fst snd] in *.
+           replace (s_now s + dt + (dt' + fold_right (fun p acc => fst p + acc) 0 t'))
+             with (s_now s + (dt + (dt' + fold_right (fun p acc => fst p + acc) 0 t'))) by lia.
+           exact Hcount1.
+    + apply absent_blocks2_persists; [exact I1|]. intros r' Hr' Ek. apply Hnin.
+      assert (r' = r) by (apply (NoDup_key_unique (s_recs s0)); [apply Hc0|apply I2; exact Hr'|exact Hr|exact Ek]).
+      subst r'. exact Hr'.
+Qed.
+
 (** ** lookups *)
 Lemma lookup_lists_holder : forall s r universe,
   inv_core s -> In r (s_recs s) -> In (a_acct r) universe ->
@@ -1557,6 +1614,19 @@ Lemma expired_gone_eventually_all : forall cfg t0 ops limit dts r e,
 Proof.
   intros cfg t0 ops limit dts r e s Hl Hd Hr He Hf Hc. unfold run, run_from. rewrite fold_left_app.
   apply (expired_gone_eventually cfg limit dts s r e); auto. apply (run_inv0 cfg t0 ops).
+Qed.
+
+Lemma expired_gone_eventually2_all : forall cfg t0 ops l r e,
+  let s := run cfg t0 ops in
+  Forall (fun p => 0 <= fst p /\ 0 <= snd p) l ->
+  In r (s_recs s) -> a_exp r = Some e ->
+  match l with p :: _ => e < s_now s + fst p | [] => False end ->
+  (Exists (fun p => snd p = 0) l \/
+   ecount (s_now s + fold_right (fun p acc => fst p + acc) 0 l) s <= fold_right (fun p acc => snd p + acc) 0 l) ->
+  absent r (run cfg t0 (ops ++ blocks2 l)).
+Proof.
+  intros cfg t0 ops l r e s Hl Hr He Hf Hc. unfold run, run_from. rewrite fold_left_app.
+  apply (expired_gone_eventually2 cfg l s r e); auto. apply (run_inv0 cfg t0 ops).
 Qed.
 
 Lemma well_formed_all : forall cfg t0 ops,
